@@ -46,6 +46,10 @@ var floatVals = []float32{-2.25, 0.0, 0.5, 1.5, 1024.125, 100000000.0}
 var strVals = []string{"", "a", "a b", "ab", "b", strings.Repeat("zy", 150)}
 var floatLits = []string{"-2.25", "0.0", "0.5", "1.5", "1024.125", "100000000.0"}
 
+// "svarchar": strings that include the two values the engine uses in-band as "minus / plus infinity" of the string
+// type (dedicated scenario, see KF-C06-varchar-sentinel)
+var sentVals = []string{"", "SamehadaDBInfMaxValue", "SamehadaDBInfMinValue", "a", "ab", "b"}
+
 const NRanks = 6
 
 func lit(typ string, rank int) string {
@@ -56,6 +60,8 @@ func lit(typ string, rank int) string {
 		return fmt.Sprint(intVals[rank])
 	case "float":
 		return floatLits[rank]
+	case "svarchar":
+		return "'" + sentVals[rank] + "'"
 	default:
 		return "'" + strVals[rank] + "'"
 	}
@@ -69,6 +75,8 @@ func valueOf(typ string, rank int) types.Value {
 		return types.NewInteger(intVals[rank])
 	case "float":
 		return types.NewFloat(floatVals[rank])
+	case "svarchar":
+		return types.NewVarchar(sentVals[rank])
 	default:
 		return types.NewVarchar(strVals[rank])
 	}
@@ -120,6 +128,20 @@ func colRank(typ string, v *types.Value) int {
 		}
 		return int(v.ToInteger())
 	}
+	if typ == "svarchar" {
+		if v == nil {
+			return -99
+		}
+		if v.IsNull() {
+			return -1
+		}
+		for i, y := range sentVals {
+			if v.ToVarchar() == y {
+				return i
+			}
+		}
+		return -99
+	}
 	return rankOf(v)
 }
 
@@ -161,7 +183,7 @@ type tableDef struct {
 func (t *tableDef) createSQL() string {
 	parts := []string{}
 	for i, c := range t.cols {
-		ty := map[string]string{"int": "int", "wint": "int", "float": "float", "varchar": "varchar(400)"}[c]
+		ty := map[string]string{"int": "int", "wint": "int", "float": "float", "varchar": "varchar(400)", "svarchar": "varchar(400)"}[c]
 		parts = append(parts, t.names[i]+" "+ty)
 	}
 	return "CREATE TABLE " + t.name + "(" + strings.Join(parts, ", ") + ");"
@@ -510,7 +532,7 @@ func randRow(rng *rand.Rand, t *tableDef, maxRank int) []int {
 
 var kindConst = map[string]index_constants.IndexKind{"skiplist": index_constants.IndexKindSkipList, "btree": index_constants.IndexKindBtree,
 	"hash": index_constants.IndexKindHash, "uniq": index_constants.IndexKindUniqSkipList, "none": index_constants.IndexKindInvalid}
-var typeConst = map[string]types.TypeID{"int": types.Integer, "wint": types.Integer, "float": types.Float, "varchar": types.Varchar}
+var typeConst = map[string]types.TypeID{"int": types.Integer, "wint": types.Integer, "float": types.Float, "varchar": types.Varchar, "svarchar": types.Varchar}
 
 // createAPI creates the table through catalog.CreateTable so that the index kind of each column can be chosen
 func (s *sqlRun) createAPI(t *tableDef) {
